@@ -7,14 +7,19 @@ interprets its argument as a template:
     `_render_string(template_str, …)`, `<env>.from_string(src)`, `Template(src)`, `render_task_prompt(task=…)`.
 Provenance roots recognised by name (everything else has no provenance of its own):
     llm      the value of `llm_call(…)`; on entry also `events` (the history holds earlier completions and, in single-call
-             mode, the pre-computed bot message) and `state` as a whole (2.x state may hold generated values)
+             mode, the pre-computed bot message), `state` as a whole (2.x state may hold generated values) and `context`
+             (stored LLM text: `last_bot_message`, generated values, action results)
     config   `self.config`, `self.bot_messages`, `self.user_messages`, `prompt`, `prompt_config`, `flow_config`,
              `state.flow_configs`, `Task`
     context  `context`, `state.context`, `render_context`
     history  `events`
     lit      a string literal
 Expression rule: the provenance of `a[b]` / `a.b` is that of `a` (a table looked up with an LLM-derived key still yields
-table content); calls propagate from the receiver and all arguments.
+table content); calls propagate from the receiver and all arguments; a nested `def g(...)` is an assignment to `g` of everything
+its body reads (so a callback handed to `re.sub` carries the provenance of its free variables).
+The theorem checks every sink for the three *data* classes llm / context / history: inside `_render_string` this says that the
+template SOURCE handed to `from_string` is a function of the `template_str` parameter (configuration, checked at every call
+site) and of literals only - a context value may enter the rendering only as a variable binding of `template.render(...)`.
 """
 import ast
 import re
@@ -34,7 +39,9 @@ ROOT_ORIGINS = [
     ("state.context", "context"), ("context", "context"), ("render_context", "context"),
     ("events", "history"),
 ]
-ENTRY_LLM = ["events", "state", "state.context", "state.flow_id_states"]  # variables that may carry LLM text when the function is entered
+# variables that may carry LLM text when the function is entered.  `context` belongs here: the context holds `last_bot_message`
+# (the previous, possibly LLM-written, reply), generated values (`$x = ...`) and action results - i.e. *stored* LLM text.
+ENTRY_LLM = ["events", "state", "state.context", "state.flow_id_states", "context"]
 
 
 def dotted(node):
@@ -163,7 +170,14 @@ class Fn:
         return out
 
     def stmt(self, s):
-        if isinstance(s, (ast.FunctionDef, ast.AsyncFunctionDef, ast.ClassDef, ast.Import, ast.ImportFrom, ast.Pass, ast.Break, ast.Continue, ast.Global, ast.Nonlocal)):
+        if isinstance(s, (ast.FunctionDef, ast.AsyncFunctionDef)):
+            # a nested function (closure): whatever it reads - its free variables included - may come back out of a call of it
+            # (`re.sub(pattern, _resolve, template_str)`), so the function NAME carries the join of everything read in its body
+            names, consts = self.expr(s)
+            own = {a.arg for a in s.args.args + s.args.kwonlyargs + s.args.posonlyargs}
+            names = [x for x in names if x.split(".")[0] not in own and x != s.name]
+            return [("assign", self.var(s.name), [self.var(x) for x in names], consts)]
+        if isinstance(s, (ast.ClassDef, ast.Import, ast.ImportFrom, ast.Pass, ast.Break, ast.Continue, ast.Global, ast.Nonlocal)):
             return []
         if isinstance(s, ast.Assign):
             tg = [x for t in s.targets for x in self.targets(t)]
